@@ -39,6 +39,10 @@ LEVEL_A = [
     dict(key='var-quoted', feats=['var-quoted'], allow=[],
          what="a quoted @variable (@'a b', @`a b`, @\"a b\") is printed without its quotes (Variable.get_string = '@' + value): "
               "SELECT @`a b` prints SELECT @a b", site='ast/variable.py Variable.get_string'),
+    dict(key='prints-uescape', feats=['prints-uescape'], allow=[],
+         what='non-ASCII text inside PARAMETERS / USING values is printed by json.dumps as \\uXXXX escapes, which the lexers do not decode: '
+              "CREATE DATABASE a PARAMETERS {'ü': 1} prints {\"\\u00fc\": 1} (visible since 56ba270 prints PARAMETERS without ENGINE; "
+              'fixes/C01_19.diff: ensure_ascii=False)', site='json.dumps in create_database.py, select.py, create_predictor.py'),
     dict(key='prints-repr', feats=['prints-repr'], allow=['prints-None'],
          what='EVALUATE ... USING prints its values with str(): a typed object prints `Object(type=..., params={params_str})` (the USING / SET lists of agents, skills, chatbots, knowledge bases, ML engines were repaired in 7cd7916)',
          site='dialects/mindsdb/evaluate.py Evaluate.get_string'),
@@ -49,13 +53,11 @@ LEVEL_A = [
          what="INTERVAL with a quoted amount that contains a blank / unit is re-split on printing: INTERVAL 'a b' a prints INTERVAL 'a' b a",
          site='ast/select/operation.py Interval'),
     dict(key='offset-bare', feats=['offset-bare'], allow=[],
-         what='OFFSET is an `id` alternative of the mysql / mindsdb grammars: a SELECT whose OFFSET directly follows a target or a table '
-              '(possible from `(SELECT a FROM t) OFFSET 1`, `SELECT a USING x = 1 OFFSET 1`) prints `... t OFFSET 1`, where OFFSET is read '
-              'as an alias and the number is a syntax error', site='`id` rule (OFFSET alternative) of dialects/mysql/parser.py, dialects/mindsdb/parser.py'),
+         what='mysql dialect: OFFSET is an `id` alternative, so a SELECT whose OFFSET directly follows a target or a table (from `(SELECT a) OFFSET 1`) prints `SELECT a OFFSET 1`, where OFFSET is read as an alias and the number is a syntax error (the mindsdb dialect was repaired in 8fa9192 / 7ca02af by a precedence declaration; fixes/C01_15.diff ports it to mysql)',
+         site='`id` rule (OFFSET alternative) of dialects/mysql/parser.py, dialects/mindsdb/parser.py'),
     dict(key='string-escapes', feats=['str-quote'], allow=['str-bs', 'str-nl', 'str-dquote'],
-         what="a string with a quote that is printed outside Constant.get_string is not escaped: SHOW BINARY LOGS LIKE 'it''s' prints LIKE 'it's' "
-              "(Show.get_string formats `LIKE '{self.like}'`); the Constant codec itself (quotes in sqlite / mysql, edge and run cases in mindsdb) "
-              "was repaired in 2843e02", site='ast/show.py Show.get_string (LIKE)'),
+         what="a string with a quote that is printed outside Constant.get_string is not escaped: CREATE JOB a (a) EVERY 'it''s' prints EVERY 'it's' (SHOW ... LIKE repaired in 31b242b, the Constant codec in 2843e02)",
+         site='dialects/mindsdb/create_job.py CreateJob.get_string'),
     dict(key='string-backslash', feats=['str-bs'], allow=['str-quote', 'str-nl', 'str-dquote'],
          what='string values containing a backslash are printed unescaped (KF-C04-1, KF-C04-5 seen through the statement round trip)',
          site='ast/select/constant.py Constant.get_string'),
@@ -84,19 +86,20 @@ WITNESS = {
     'ident-bq': ('mindsdb', 'SELECT * FROM ( SELECT 1 ) AS `alter`'), 'var-quoted': ('mindsdb', 'SELECT @`a b`'),
     'prints-repr': ('mindsdb', 'UPDATE SKILL a SET a = a'), 'prints-None': ('mindsdb', 'SHOW ENGINE'),
     'interval': ('mindsdb', "SELECT INTERVAL 'a b' a"), 'offset-bare': ('mysql', '( select a ) OFFSET 1'),
-    'string-escapes': ('sqlite', "SHOW BINARY LOGS LIKE 'it''s'"),
+    'string-escapes': ('mindsdb', "CREATE JOB a ( a ) EVERY 'it''s'"),
 }
 # further minimised inputs seen in earlier searches (kept so that their classes stay listed)
 EXTRA = [('mindsdb', 'SELECT a "."'), ('mindsdb', 'CREATE AGENT a USING a = 1'), ('mindsdb', "select @'a b'"),
          ('mysql', 'SELECT a "a`a"'), ('sqlite', 'INSERT INTO a ( `B""` ) VALUES ( 1 )')]
 
 
-FIXED = {'KF-C01-1': 'fa4fc42', 'KF-C01-6': '6a738d8', 'KF-C01-11': '2843e02', 'KF-C01-12': '2843e02', 'KF-C01-13': '5eca6b1',
-         'KF-C01-3': 'addc808', 'KF-C01-5': '4373848', 'KF-C01-7': '7cd7916', 'KF-C01-14': 'edb99ae', 'KF-C01-17': 'edb99ae',
+FIXED = {'KF-C01-1': 'fa4fc42', 'KF-C01-6': '6a738d8', 'KF-C01-11': '31b242b', 'KF-C01-12': '2843e02', 'KF-C01-13': '5eca6b1',
+         'KF-C01-3': '44b8d9c', 'KF-C01-5': '4373848', 'KF-C01-7': '9d78ee7', 'KF-C01-14': 'edb99ae', 'KF-C01-17': 'edb99ae',
          'KF-C01-20': 'edb99ae', 'KF-C01-24': 'bce2da8', 'KF-C01-25': 'edb99ae', 'KF-C01-26': 'edb99ae', 'KF-C01-27': 'bce2da8',
          'KF-C01-28': 'edb99ae', 'KF-C01-29': 'edb99ae', 'KF-C01-31': 'bce2da8', 'KF-C01-32': 'edb99ae', 'KF-C01-33': '7cd7916',
          'KF-C01-34': '7cd7916', 'KF-C01-35': '7cd7916', 'KF-C01-37': '7cd7916', 'KF-C01-40': 'bce2da8', 'KF-C01-41': 'bce2da8',
-         'KF-C01-42': '4373848', 'KF-C01-16': 'bce2da8', 'KF-C01-22': '?', 'KF-C01-39': '?'}
+         'KF-C01-42': '31b242b', 'KF-C01-2': '2ba2fb1', 'KF-C01-8': '31b242b', 'KF-C01-9': '35a9412', 'KF-C01-15': '56ba270',
+         'KF-C01-19': '2ba2fb1', 'KF-C01-23': '9d78ee7', 'KF-C01-30': '31b242b', 'KF-C01-43': '2ba2fb1', 'KF-C01-16': 'bce2da8', 'KF-C01-22': '?', 'KF-C01-39': '?'}
 FIXED_NEW = [dict(property='C01', status='fixed', commit='8cbc399',
                   what='fixed: property=C01 8cbc399 CREATE AGENT without a model printed `USING model=None, ...`, which was read back as the '
                        'identifier None (print-unstable): CREATE AGENT a USING a = 1',
